@@ -343,6 +343,29 @@ Definition xf_value (x : outcome xres) : outcome bytes :=
             end
   end.
 
+(* A caller that follows the x/text contract (transform.Writer, Reader, String) over a source that
+   arrives in chunks: hand over what it has with atEOF=false; keep everything the transformer did
+   not consume, append the next chunk; at the end call with atEOF=true.  [Err EOther]: the
+   transformer consumed or produced something before atEOF - a streaming transformer, which
+   neither of these two is. *)
+Fixpoint feed (T : bytes -> bytes -> bool -> outcome xres) (d0 pending : bytes) (chunks : list bytes) : outcome bytes :=
+  match chunks with
+  | [] => xf_value (T d0 pending true)
+  | c :: rest =>
+      match T d0 (pending ++ c) false with
+      | Ok r =>
+          match x_err r with
+          | XShortSrc | XNil =>
+              if Nat.eqb (x_ndst r) 0 && Nat.eqb (x_nsrc r) 0 then feed T d0 (pending ++ c) rest else Err EOther
+          | XShortDst => Err ESize
+          | XInvalid => Err EText
+          end
+      | Err e => Err e
+      | Panic => Panic
+      end
+  end.
+
+
 (* --- observables used by the generated cases ---------------------------- *)
 Definition beq_runes := beq_bytes.
 (* cls: 0 value returned, 1 error, 2 panic, 3 transform.ErrShortDst *)
@@ -458,6 +481,22 @@ Definition enc_entry_ok (src : bytes) (cls : N) (out : bytes) : bool :=
   end.
 Definition dec_entry_ok (src : bytes) (cls : N) (out : bytes) : bool :=
   match dec_value src with
+  | Ok o => (cls =? 1) || ((cls =? 0) && (beq_bytes out o || beq_bytes (out ++ [cr]) o || beq_bytes out (o ++ [cr])))
+  | Err _ => (cls =? 0) || (cls =? 1)
+  | Panic => cls =? 2
+  end.
+
+(* transform.Writer fed with the given chunks (one Write each), then Close *)
+Definition enc_feed_ok (chunks : list bytes) (cls : N) (out : bytes) : bool :=
+  let t := utf8_dec (List.concat chunks) in
+  match feed enc_xfb (repeat 0xFF (needed t)) [] chunks with
+  | Ok o => (cls =? 0) && (beq_bytes out o || (beq_bytes out (o ++ [cr]) && ambiguous t))
+  | Err _ => cls =? 1
+  | Panic => cls =? 2
+  end.
+Definition dec_feed_ok (chunks : list bytes) (cls : N) (out : bytes) : bool :=
+  let src := List.concat chunks in
+  match feed dec_xf (repeat 0xFF (3 * length (unpack_septets src))) [] chunks with
   | Ok o => (cls =? 1) || ((cls =? 0) && (beq_bytes out o || beq_bytes (out ++ [cr]) o || beq_bytes out (o ++ [cr])))
   | Err _ => (cls =? 0) || (cls =? 1)
   | Panic => cls =? 2
